@@ -655,6 +655,10 @@ class IteratorQueue(IterableQueue[_ValueT]):
             continue
           if self._dequeue_lock.wait(timeout=self.timeout):
             continue
+          if result:
+            # Return what is already dequeued rather than dropping it, the next
+            # call times out if the queue is still starved.
+            break
           raise TimeoutError(
               f'"{self.name}" dequeue timeout={self.timeout}secs.'
           ) from e
